@@ -1196,6 +1196,65 @@ fn main() {
     stats.insert("next_panicked".into(), n_next as u64 - next_some);
     stats.insert("next_in_promised_class".into(), next_realistic);
 
+    // ---- the statistics next_epoch_ext is fed with: EpochProvider::get_block_epoch (the default method every
+    //      store-backed provider uses) on an in-memory chain of one epoch, against the sums over its blocks
+    {
+        struct ChainMock { epoch: EpochExt, hashes: Vec<Byte32>, headers: std::collections::HashMap<Byte32, HeaderView>, exts: std::collections::HashMap<Byte32, BlockExt> }
+        impl EpochProvider for ChainMock {
+            fn get_epoch_ext(&self, _h: &HeaderView) -> Option<EpochExt> { Some(self.epoch.clone()) }
+            fn get_block_hash(&self, n: BlockNumber) -> Option<Byte32> { self.hashes.get(n as usize).cloned() }
+            fn get_block_ext(&self, h: &Byte32) -> Option<BlockExt> { self.exts.get(h).cloned() }
+            fn get_block_header(&self, h: &Byte32) -> Option<HeaderView> { self.headers.get(h).cloned() }
+        }
+        let n_prov = 300 * k;
+        for pi in 0..n_prov {
+            // heights 0 ..= start + length - 1; epoch [start, start + length); genesis epoch when start = 0
+            let genesis_epoch = rng.chance(1, 5);
+            let start = if genesis_epoch { 0 } else { rng.range(1, 6) };
+            let length = rng.range(1, 9);
+            let last = start + length - 1;
+            let mut hashes = vec![];
+            let mut headers = std::collections::HashMap::new();
+            let mut exts = std::collections::HashMap::new();
+            let (mut total_uncles, mut ts) = (rng.below(5), 1_000_000u64);
+            let mut per_block = vec![];
+            for n in 0..=last {
+                // uncles in every block, the tail block included
+                let u = if n == 0 { 0 } else if rng.chance(1, 2) { rng.below(3) } else { 0 };
+                if n > 0 { total_uncles += u; ts += rng.range(1, 20_000); }
+                per_block.push((u, ts));
+                let h = HeaderBuilder::default().number(n).timestamp(ts).nonce((pi as u128) << 32 | n as u128).build();
+                hashes.push(h.hash());
+                exts.insert(h.hash(), BlockExt { received_at: 0, total_difficulty: U256::zero(), total_uncles_count: total_uncles, verified: Some(true), txs_fees: vec![], cycles: None, txs_sizes: None });
+                headers.insert(h.hash(), h);
+            }
+            let prev = if start == 0 { 0 } else { start - 1 };
+            let epoch = EpochExt::new_builder().number(if genesis_epoch { 0 } else { 3 }).start_number(start).length(length)
+                .last_block_hash_in_previous_epoch(hashes[prev as usize].clone()).compact_target(0x2001_0000).build();
+            let mock = ChainMock { epoch, hashes: hashes.clone(), headers, exts };
+            evaluations += 1;
+            *stats.entry("provider_epochs".into()).or_default() += 1;
+            for n in start.max(1)..=last {
+                let hv = mock.get_block_header(&hashes[n as usize]).unwrap();
+                let got = guard(|| mock.get_block_epoch(&hv)).flatten();
+                let first = if start == 0 { 1 } else { start };
+                let want_u: u64 = (first..=last).map(|m| per_block[m as usize].0).sum();
+                let want_d = per_block[last as usize].1 - per_block[prev as usize].1;
+                let ok = match (&got, n == last) {
+                    (Some(BlockEpoch::TailBlock { epoch_uncles_count, epoch_duration_in_milliseconds, .. }), true) => *epoch_uncles_count == want_u && *epoch_duration_in_milliseconds == want_d,
+                    (Some(BlockEpoch::NonTailBlock { .. }), false) => true,
+                    _ => false,
+                };
+                if !ok {
+                    let shown = match &got { Some(BlockEpoch::TailBlock { epoch_uncles_count, epoch_duration_in_milliseconds, .. }) => format!("tail: {epoch_uncles_count} uncles, {epoch_duration_in_milliseconds} ms"), Some(BlockEpoch::NonTailBlock { .. }) => "non-tail".into(), None => "none / panic".into() };
+                    vio(&mut viol, "EpochProvider::get_block_epoch does not give the finished epoch's statistics (uncles of all its blocks, the tail block included; duration from the last block of the previous epoch)",
+                        json!({"group": "provider", "epoch_start": start, "length": length, "asked_at": n, "uncles_per_block_and_timestamps": per_block, "answer": shown, "expected_tail": [want_u, want_d]}));
+                    break;
+                }
+            }
+        }
+    }
+
     for (i, cf) in files.iter().enumerate() {
         cf.write().unwrap();
         fs::write(out.join(format!("cases_{:02}.json", i)), serde_json::to_string(&descs[i]).unwrap()).unwrap();
